@@ -460,13 +460,13 @@ def write_evidence(ctx, coverage, violations, assumptions):
     return p
 
 
-def lang_lines(ctx, sources, op="eval"):
+def lang_lines(ctx, sources, op="eval", ast_sources=None):
     """Two-phase language engine: the real parser prints the AST of every source text
     (harness op `parse`); the line sent to the Lean driver carries that AST so the reference
     semantics needs no parser model.  Sources with parse errors get the AST anyway."""
     if not ctx.harness:
         return [f"{op} {s.encode('utf-8').hex()} @@ (prog)" for s in sources]
-    plines = ["parse " + s.encode("utf-8").hex() for s in sources]
+    plines = ["parse " + s.encode("utf-8").hex() for s in (ast_sources or sources)]
     outs = run_parallel(ctx.harness, plines, timeout=120, label="parse")
     lines = []
     for s, o in zip(sources, outs):
